@@ -15,7 +15,9 @@ package main
 
 import (
 	"context"
+	"encoding/json"
 	"fmt"
+	"io/ioutil"
 	"math/rand"
 	"strings"
 	"sync/atomic"
@@ -217,7 +219,7 @@ func main() {
 	}
 	e := &env{r: r, m: m, s: m.Srv, rc: rc, ctx: context.Background(), owner: hist.Goid(), backend: "mem"}
 	var base kv.Base = kv.NewMemoryKV()
-	histories := r.Pick(300, 1500)
+	histories := r.Pick(300, 1200)
 	if r.Thorough() && r.Shards > 1 && r.Shard == r.Shards-1 {
 		e.backend = "etcd"
 		base = kv.NewEtcdKVBase(m.Srv.GetClient(), "/verif-c14")
@@ -238,8 +240,29 @@ func main() {
 
 	md := newModel()
 	e.scripted(md)
+	replaySeed, replaying := int64(0), false
+	if r.Replay != "" {
+		// replay = the scripted histories plus the one random history named by the witness file
+		var doc struct {
+			Witness struct {
+				HistorySeed int64 `json:"history_seed"`
+			} `json:"witness"`
+		}
+		b, err := ioutil.ReadFile(r.Replay)
+		if err != nil || json.Unmarshal(b, &doc) != nil {
+			r.Inconclusive("cannot read replay file %s", r.Replay)
+			histories = 0
+		} else if doc.Witness.HistorySeed != 0 {
+			replaySeed, replaying, histories = doc.Witness.HistorySeed, true, 1
+		} else {
+			histories = 0
+		}
+	}
 	for h := 0; h < histories && e.lost == ""; h++ {
 		hseed := rng.Int63()
+		if replaying {
+			hseed = replaySeed
+		}
 		if err := e.resetWorld(md); err != nil {
 			r.Inconclusive("history %d: %v", h, err)
 			break
@@ -249,13 +272,17 @@ func main() {
 			r.Inconclusive("history %d: %s (harness/machine problem, not a verdict)", h, e.lost)
 			break
 		}
-		if r.Violations() > 200 {
+		if r.Violations() > 20000 {
 			break
 		}
 	}
 	r.Count("background_writes_refused", atomic.LoadInt64(&e.guard.rejected))
 	r.Floor(int64(histories))
 	// hooks that must have been reached for the verdict to mean anything
+	if r.Replay != "" {
+		m.Close()
+		r.Finish()
+	}
 	for _, c := range []string{"hook_VerifCheckStores", "hook_VerifBuryStore", "hook_VerifProcessRegionHeartbeat", "faults_injected", "transition_Up->Offline", "transition_Offline->Tombstone", "transition_Offline->Up", "tombstone_grpc_requests", "record_deleted"} {
 		if r.Counter(c) == 0 {
 			r.Inconclusive("nothing observed for %s", c)
@@ -350,6 +377,7 @@ func (e *env) scripted(md *model) {
 		"witness-merge-labels": {
 			{st: &step{Cmd: "labels", ID: 1, Labels: zone("z1"), Force: true}},
 			{st: &step{Cmd: "put", Via: "cluster", ID: 1, Addr: "mock://tikv-1", Version: "5.0.0", Labels: zone("z2")}, f: &faultPlan{Mode: 1, N: 1}},
+			{st: &step{Cmd: "labels", ID: 1, Labels: zone("z3")}, f: &faultPlan{Mode: 2, N: 1}},
 		},
 		// witness 2: a command on a tombstone store re-creates its rolling statistics; after the
 		// record is cleaned up the next heartbeat of any store dereferences the missing store
